@@ -94,7 +94,7 @@ def r1_ownership(repo, rep, cls):
         while isinstance(base, ast.Attribute) and base.attr in ('loc', 'iloc', 'at', 'iat'):
           base = base.value
         n_sites += 1
-        exp = norm(rd.expand(n, base)[0])
+        exp = norm(rd.expand(n, base, aliases=True)[0])
         fresh = bool(re.search(r'\.copy\(', exp)) or '.pivot_table(' in exp or exp.startswith(('pd.DataFrame(', 'pandas.DataFrame(')) \
             or exp in ('{}', '[]', 'dict()', 'list()', 'set()') or exp.startswith(('{', '['))
         if exp == 'self._analysis_data':
